@@ -3,7 +3,8 @@
 
    The model (C06/Model.v): [oexpr] = the ten expression classes of
    odl/operator/operator.py and the block operators BroadcastOperator /
-   ReductionOperator / DiagonalOperator of pspace_ops.py (any number of blocks;
+   ReductionOperator / DiagonalOperator / ProductSpaceOperator (sparse matrix
+   with holes) of pspace_ops.py (any number of blocks;
    product-space elements are flat lists) over the leaf operators of
    default_ops.py / ufunc_ops.py; [eval] = _call; [derivative] = the .derivative methods
    (with the "linear => self" shortcuts, the inner points, the overloads used
@@ -31,7 +32,7 @@ From Verif Require Import Base.Num Base.Vec C06.Syntax Gen.UfuncDeriv C06.Model 
 Import ListNotations.
 Local Open Scope R_scope.
 
-(* T1. For EVERY expression tree e (any depth, any mix of the thirteen classes,
+(* T1. For EVERY expression tree e (any depth, any mix of the fourteen classes,
    any number of blocks, any leaves), every point x at which derivative(x) returns and which is
    regular: the returned object D
      (1) evaluates to the Frechet/Hadamard derivative of e at x,
